@@ -11,6 +11,9 @@ C. the binary vs the Coq SPEC `spec_bounds` (documented grammar -> documented in
    spelling x fraction length; every subset and order of w/d/h/m/s, multi-digit counts, both signs,
    with/without '@'), and vs the rejection spec on near-miss / ambiguous / both-'@' / after>before
    inputs, under several --tz-offset values.  This is the failing-input search.
+   after > before at EVERY scale: pairs a = b + d, d from 1 us to 2 s (gen_near_pairs), both orders, mixed
+   forms / fraction lengths / zones / bare dates at a local midnight / '@' forms; an inverted pair must be
+   rejected (non-zero exit, nothing printed), an equal or ordered one accepted with the documented bounds.
    '@' bounds whose other bound carries a 3- or 6-digit fraction (both directions; D = 0 s ... mixed
    units) are additionally checked through their effect on a probe log (lines 100 ms apart and 1 us
    around both bounds): the printed lines must be exactly those with a <= t <= b of the spec, and the
